@@ -89,6 +89,31 @@ theorem NoNL.one {inp : Input} {a : Nat} (h : bAt inp a ≠ 10) : NoNL inp a (a+
 theorem NoNL.empty (inp : Input) (a : Nat) : NoNL inp a a := by
   intro i h1 h2; omega
 
+/-! ### slices -/
+
+theorem mem_slice {inp : Input} {a b x : Nat} (h : x ∈ slice inp a b) :
+    ∃ i, a ≤ i ∧ i < b ∧ i < inp.size ∧ bAt inp i = x := by
+  unfold slice at h
+  rw [List.mem_map] at h
+  obtain ⟨u, hu, rfl⟩ := h
+  obtain ⟨k, hk, hget⟩ := List.getElem_of_mem hu
+  simp only [List.length_take, List.length_drop, Array.length_toList] at hk
+  refine ⟨a + k, by omega, by omega, by omega, ?_⟩
+  rw [bAt_lt (by omega)]
+  simp only [List.getElem_take, List.getElem_drop, Array.getElem_toList] at hget
+  rw [hget]
+
+theorem nl_mem_slice {inp : Input} {a b : Nat} (h : 0 < nlCount inp a b) : 10 ∈ slice inp a b := by
+  unfold nlCount at h
+  unfold slice
+  rw [List.count_pos_iff] at h
+  exact List.mem_map.mpr ⟨10, h, rfl⟩
+
+theorem not_mem_slice_of_noNL {inp : Input} {a b : Nat} (h : NoNL inp a b) : 10 ∉ slice inp a b := by
+  intro hc
+  obtain ⟨i, h1, h2, _, h4⟩ := mem_slice hc
+  exact h i h1 h2 h4
+
 /-! ### decodeRune -/
 
 theorem cont_range {b : Nat} (h : cont b = true) : 0x80 ≤ b ∧ b < 256 := by
